@@ -105,7 +105,7 @@ def run(ctx):
     fixed = ['"é中🚀" x', "#a" + FF + "b" + LS + "c" + NEL + "d\n x", "a\n", "a\r\n", "\r\n", "a\r", "é\n", "", "a", "é",
              "a\r\nb", "a\n\rb", "\r\r\n\n", "x" + VT + "y" + PS + "z", "🚀🚀\r\n🚀"]
     docs = []
-    ndocs = 40 if quick else 1500
+    ndocs = 100 if quick else 1500
     for d in DOCS:
         docs.append(d.replace("§", "").replace("¶", " "))
         for k in range(ndocs):
